@@ -548,6 +548,16 @@ func genFuture(r *kit.Rand) *scenario {
 		if len(p) != len(old) {
 			p = powers(r, len(old), r.Intn(nProfiles))
 		}
+		if r.Chance(65) { // old validators that left hold little: the overlap can still reach 2/3
+			for i := range old {
+				if !inNew[old[i].id] {
+					p[i] = 1
+				} else if p[i] < 100 {
+					p[i] += 100
+				}
+			}
+			fix(p)
+		}
 		for i := range old {
 			old[i].power = p[i]
 		}
